@@ -5,6 +5,10 @@ Part 1 (placement, linear integer arithmetic, unbounded sizes): with off_r / off
 partial exists (0 otherwise), -1 added on the diagonal when f_a = v_b for residual rows.
 Matrices are precise real matrices with a dense/sparse format flag (pyvc/plug_np_c07.py); scipy's eye / csr_matrix / bmat
 are ASSUMED block-placement contracts (listed in the evidence).
+
+Part 2 (algebra, abstract matrix ring: uninterpreted sort with + * neg transpose inverse col row, textbook identities ASSUMED and
+listed): CoupledSystem._direct_mode and _adjoint_mode both return dF/dx - dF/dy (dR/dy)^-1 dR/dx; the linear solver is an
+assumed exact solve.
 """
 from __future__ import annotations
 
@@ -28,8 +32,7 @@ NAMES = TList(TStr)
 SIZES = TDict(TStr, TInt)
 JROW = TDict(TStr, TMat)  # jac[f]: variable name -> partial Jacobian
 JAC = TDict(TStr, JROW)  # discipline.jac
-DISCREC = TRec("DisciplineJac", {"jac": JAC}, cls=DISC)  # the only thing the assembly reads of a discipline: its Jacobian
-DISCS = TDict(TStr, DISCREC)
+DISCS = TDict(TStr, JAC)  # a discipline is represented by the only thing the assembly reads of it: its Jacobian `discipline.jac`
 
 schema(JA, {"sizes": SIZES, "disciplines": DISCS})
 
@@ -148,7 +151,7 @@ class Asm:
 
     def jac_of(self, a):
         """disciplines[f_a].jac (embedded dict term)."""
-        return DISCREC.accessor("jac")(self.D.vals[self.fa(a)])
+        return self.D.vals[self.fa(a)]
 
     def row(self, a):
         return JAC.acc(1)(self.jac_of(a))[self.fa(a)]
@@ -280,6 +283,7 @@ class GetJacobianGenerator(Contract):
     targets = (JA + "._get_jacobian_generator",)
     prop = ("C07",)
     c07 = True
+    disciplines_are_jac_dicts = True  # self.disciplines[name] stands for self.disciplines[name].jac (see DISCS)
     params = {"functions": NAMES, "variables": NAMES, "is_residual": TBool}
     returns = ITEMS
     loops = {0: LoopSpec(anchor="enumerate(functions)", modifies=("__yield__",), inv=_gen_outer),
@@ -391,6 +395,7 @@ class AssembleJacobianAsMatrix(Contract):
     targets = (JA + "._assemble_jacobian_as_matrix",)
     prop = ("C07",)
     c07 = True
+    disciplines_are_jac_dicts = True  # self.disciplines[name] stands for self.disciplines[name].jac (see DISCS)
     none_elem_type = OMat
     params = {"functions": NAMES, "variables": NAMES, "is_residual": TBool}
     returns = TMat
@@ -452,6 +457,7 @@ class AssembleJacobian(Contract):
     targets = (JA + ".assemble_jacobian",)
     prop = ("C07",)
     c07 = True
+    disciplines_are_jac_dicts = True  # self.disciplines[name] stands for self.disciplines[name].jac (see DISCS)
     params = {"functions": NAMES, "variables": NAMES, "is_residual": TBool, "jacobian_type": TStr}
     returns = TMat
 
@@ -759,7 +765,6 @@ def _adjoint_inner(c, i):
     J = jac.vals[fun]
     p, r = z3.Int("p!ai"), z3.Int("r!ai")
     f = a.F.elems[p]
-    k = c.pre_locals_k if hasattr(c, "pre_locals_k") else None
     return [("current-jacobian-shape", z3.And(jac.has(fun), nrows(J) == nrows(a.DX.vals[fun]), ncols(J) == ncols(a.DX.vals[fun]))),
             ("rows-so-far", z3.ForAll([r], z3.Implies(in_range(r, i), mrow(J, r) == adjoint_row(a, fun, r)), patterns=[mrow(J, r)])),
             ("other-jacobians-kept", z3.ForAll([p], z3.Implies(z3.And(in_range(p, a.F.n), f != fun, c.pre_locals["jac"].has(f)), z3.And(jac.has(f), jac.vals[f] == c.pre_locals["jac"].vals[f])),
